@@ -18,7 +18,7 @@ from __future__ import annotations
 import ast
 
 from .. import ctx, pump
-from ..project import AnalysisError, call_name, kwarg, norm, walk_no_nested
+from ..project import order, AnalysisError, call_name, kwarg, norm, walk_no_nested
 from .c13 import attach_items
 
 SUPER = "InputStreamSuperfluousBytesError"
@@ -237,6 +237,17 @@ def check(run, project):
     if cc_defs and cc_defs != "?":
         assigns = [n for n in walk_no_nested(fn) if isinstance(n, ast.Assign) and isinstance(n.targets[0], ast.Name)
                    and n.targets[0].id == cc_defs]
+        # "None if no command was decoded so far": the running code starts as None - in particular it is not the pump's own
+        # `command_code` argument (the code a lone response is *interpreted* with), which has the same name
+        loops_top = [s_ for s_ in fn.body if isinstance(s_, ast.While)]
+        first_loop = min((order(s_) for s_ in loops_top), default=None)
+        reset = [a for a in assigns if isinstance(a.value, ast.Constant) and a.value.value is None and any(a is s_ for s_ in fn.body)
+                 and (first_loop is None or order(a) < first_loop)]
+        is_param = cc_defs in [a.arg for a in fn.args.args]
+        run.ob("E2", bool(reset) or not is_param, "the running command code starts as None",
+               f"`{cc_defs}` is also a parameter of the pump and is not reset to None before the pull loop: the errors of a decode "
+               "that was handed a command code (a lone Response) carry that code although no command was decoded", module=mod,
+               node=fn, func=fn.name, construct=f"{cc_defs} initial value")
         for a in assigns:
             if isinstance(a.value, ast.Constant) and a.value.value is None:
                 run.ob("E2", True, f"command code initialised to None at L{a.lineno}")
